@@ -16,10 +16,11 @@ func init() {
 		Title:     "Function hoisting only reorders top-level chunks",
 		Technique: "complementary-partition and chunk-tiling shape analysis of formatutil.RearrangeFuncs/codeOf over the type-checked AST",
 		Explanation: "Decides for every source that RearrangeFuncs' output is src[:off] followed by two ascending passes over the SAME chunk slice whose predicates are each other's negation (isFuncDecl first), each pass appending codeOf(src, base, i, rest) for its chunks and nothing else — every chunk exactly once, functions first, relative order kept; " +
-			"and that the chunks tile the source: codeOf's start of chunk i, its end (= start of chunk i+1, or len(src) for the last) and the untouched prefix length `off` are the same position expression applied to rest[i], rest[i+1] and the first chunk — no byte added or lost.",
-		NotCovered: "whether splitStmts puts statement boundaries at the right tokens, whether isFuncDecl classifies every declaration head like the parser does (token-level classifier; needs the grammar), and the SourceEx success clause.",
+			"and that the chunks tile the source: codeOf's start of chunk i, its end (= start of chunk i+1, or len(src) for the last) and the untouched prefix length `off` are the same position expression applied to rest[i], rest[i+1] and the first chunk — no byte added or lost. Classifier agreement (rule classifier): isFuncDecl's own statements after the receiver `func (…)` are evaluated once per token on which the parser (parseFuncDeclOrCall) continues a declaration — IDENT, `.` and every key of parser.overloadOps — and must yield true, and for `{` must yield false.",
+		NotCovered: "whether splitStmts puts statement boundaries at the right tokens, whether isFuncDecl classifies heads other than `func (…) <token>` like the parser does (e.g. `func (a) (b) {…}()` with a parenthesised result list is hoisted although the parser reads a function literal — the classifier only looks one token past the receiver), and the SourceEx success clause.",
 		Run:        runC24,
 		Controls: []Control{
+			{Name: "method-needs-identifier-name", File: f, Old: "\t\tif startWith(words, token.LBRACE) {                      // func (...) {\n\t\t\treturn false\n\t\t}\n", New: "\t\treturn startWith(words, token.IDENT)\n", Expect: "classifier/after-receiver:ADD"},
 			{Name: "prefix-from-other-token", File: f, Old: "off := int(stmts[first].words[0].pos) - base", New: "off := int(stmts[first].words[stmts[first].at].pos) - base", Expect: "tiling/prefix"},
 			{Name: "chunk-end-off-by-one", File: f, Old: "to = int(rest[i+1].words[0].pos) - base", New: "to = int(rest[i+1].words[0].pos) - base - 1", Expect: "tiling/chunk-end"},
 			{Name: "last-chunk-truncated", File: f, Old: "\t\tto = len(src)\n", New: "\t\tto = len(src) - 1\n", Expect: "tiling/last-chunk"},
@@ -33,10 +34,14 @@ func init() {
 }
 
 func runC24(c *core.Check) {
-	prog := c.Load("./format/formatutil")
+	prog := c.Load("./format/formatutil", "./parser")
 	pk := prog.Pkg("./format/formatutil")
 	if pk == nil {
 		return
+	}
+	if xpk := prog.Pkg("./parser"); xpk != nil {
+		c24Classifier(c, prog, pk, xpk)
+		c.Floor("classifier", 30)
 	}
 	info := pk.TypesInfo
 	rf := prog.FuncDecl("./format/formatutil", "RearrangeFuncs")
